@@ -254,12 +254,19 @@ Fixpoint shuffle_idx_slow (k : nat) (i : N) (st : rng) : list N * rng :=
             end
   end.
 
+(** [partial_shuffle(rng, amount)] on a slice of [len] elements: m = len.saturating_sub(amount);
+    [IncreasingUniform::new(rng, m as u32)] when [len < u32::MAX], else [random_range(..i + 1)];
+    the indices drawn for i = m .. len - 1 *)
+Definition partial_indices (len : N) (amount : nat) (st : rng) : list N * rng :=
+  let eff := if N.of_nat amount <? len then amount else N.to_nat len in
+  let m := len - N.of_nat eff in
+  if len <? mask32 then shuffle_idx_fast eff (incu_new m) st
+  else shuffle_idx_slow eff m st.
+
 (** [shuffle] of a slice of [len] elements: nothing is drawn for len <= 1; otherwise
     [partial_shuffle(rng, len)], m = 0: for i in 0..len { swap(i, index_i) } *)
 Definition shuffle_indices (len : nat) (st : rng) : list N * rng :=
-  if Nat.leb len 1 then ([], st)
-  else if N.of_nat len <? mask32 then shuffle_idx_fast len (incu_new 0) st
-  else shuffle_idx_slow len 0 st.
+  if Nat.leb len 1 then ([], st) else partial_indices (N.of_nat len) len st.
 
 Fixpoint upd {A} (i : nat) (x : A) (l : list A) : list A :=
   match l, i with
@@ -435,7 +442,8 @@ Inductive call :=
 | CShuffle (m : nat)
 | CWeightedN (ws : list N)
 | CWeightedF (ws : list f64w)
-| CSetPos (block : N) (off : nat).
+| CSetPos (block : N) (off : nat)
+| CPartial (len : N) (amount : nat) (show : bool).
 
 Definition lemire_fuel : nat := 64.
 
@@ -465,6 +473,8 @@ Definition run_call (c : call) (st : rng) : val * rng :=
                      | inr (i, st) => (L [nat_v i], st)
                      end
   | CSetPos b off => (L [], set_word_pos b off st)
+  | CPartial len amount show =>
+      let (js, st) := partial_indices len amount st in ((if show then list_v n_v js else L []), st)
   end.
 
 Fixpoint run_calls (cs : list call) (st : rng) : list val * rng :=
@@ -491,7 +501,8 @@ Definition v_call (v : val) : call :=
   | 4%Z => CShuffle (v_nat (v_nth 1 v))
   | 5%Z => CWeightedN (v_list v_hl (v_nth 1 v))
   | 6%Z => CWeightedF (v_list v_f64w (v_nth 1 v))
-  | _ => CSetPos (v_hl (v_nth 1 v)) (v_nat (v_nth 2 v))
+  | 7%Z => CSetPos (v_hl (v_nth 1 v)) (v_nat (v_nth 2 v))
+  | _ => CPartial (v_hl (v_nth 1 v)) (v_nat (v_nth 2 v)) (v_bool (v_nth 3 v))
   end.
 
 (** (seed script) |-> (results (block-hi block-lo offset)): the results of the calls and [get_word_pos] at the end *)
@@ -528,6 +539,14 @@ Definition check_call (c : call) (out : val) : bool :=
                      | _, _ => false
                      end
   | CSetPos _ _ => match out with L [] => true | _ => false end
+  | CPartial len amount show =>
+      let eff := if N.of_nat amount <? len then amount else N.to_nat len in
+      if show then
+        let js := v_list v_n out in
+        Nat.eqb (length js) eff
+        && (fix ok (i : N) (js : list N) := match js with [] => true | j :: r => (j <=? i) && ok (i + 1) r end)
+             (len - N.of_nat eff) js
+      else match out with L [] => true | _ => false end
   end.
 Fixpoint check_calls (cs : list call) (outs : list val) : bool :=
   match cs, outs with
